@@ -44,6 +44,8 @@ type Observed struct {
 	Problems []string // peer-level trouble (timeouts, unparsable frames)
 	Dead     bool     // the server stopped answering well-formed pings (the rest of the batch is pointless)
 	PanicLog string
+	Framing  string // Streamable POST answered 200: "sse" | "json" ("" otherwise)
+	Aborted  bool   // the connection was dropped without an HTTP status
 }
 
 func (o Observed) Outcome() map[string]any {
@@ -191,7 +193,7 @@ const initBody = `{"jsonrpc":"2.0","id":"setup","method":"initialize","params":{
 
 func NewStreamable(cfg StreamableCfg, reg *Registry) (Target, error) {
 	t := &streamable{cfg: cfg, reg: reg, plog: &panicLog{}, sids: map[string]string{}}
-	t.fx = hk.NewFixture(hk.SrvCfg{Mode: cfg.Mode, Get: true, PostSSE: cfg.PostSSE})
+	t.fx = hk.NewFixture(hk.SrvCfg{Mode: cfg.Mode, Get: true, PostSSE: cfg.PostSSE}, reg.StreamableOptions()...)
 	t.fx.TS.Config.ErrorLog = log.New(t.plog, "", 0)
 	reg.Install(t.fx.S)
 	t.fresh = &http.Client{Transport: &http.Transport{DisableKeepAlives: true, DisableCompression: true}, Timeout: stepCeiling}
@@ -372,6 +374,14 @@ func (t *streamable) Exchange(in Input) Observed {
 			if isTimeout(r.Err) {
 				o.Problems = append(o.Problems, "no answer within "+(2*stepCeiling).String()+": "+r.Err.Error())
 				o.Dead = true
+			} else {
+				o.Aborted = true
+				o.Problems = append(o.Problems, "the connection was dropped without an answer: "+r.Err.Error())
+			}
+		} else if r.Status == 200 && in.Verb == "POST" {
+			o.Framing = "json"
+			if strings.HasPrefix(r.Header.Get("Content-Type"), "text/event-stream") {
+				o.Framing = "sse"
 			}
 		}
 		o.RawBody = string(r.Body)
@@ -480,8 +490,8 @@ func (t *streamable) ModelOp(in Input) map[string]any {
 	return map[string]any{"k": "streamable",
 		"cfg": map[string]any{"mode": t.cfg.Mode, "get": true, "postSSE": t.cfg.PostSSE, "pathSet": true},
 		"st":  map[string]any{"live": []any{0, 1}, "issued": 3, "ls": ls},
-		"in":  map[string]any{"verb": verb, "pathOk": in.Path != "wrong", "ref": ref, "accept": in.Accept, "body": bodyEnc(in.Body, false)},
-		"reg": t.reg.Spec()}
+		"in":  map[string]any{"verb": verb, "pathOk": in.Path != "wrong", "ref": ref, "accept": t.headers(in)["Accept"], "body": bodyEnc(in.Body, false)},
+		"reg": t.reg.SpecFor(in.Hdr[RoleHeader])}
 }
 
 // bodyEnc: the request body as the server's JSON decoder sees it.
@@ -655,7 +665,7 @@ type sseTarget struct {
 
 func NewSSE(reg *Registry) (Target, error) {
 	t := &sseTarget{reg: reg, plog: &panicLog{}}
-	t.srv = mcp.NewSSEServer(ServerName, ServerVersion, mcp.WithSSEServerLogger(hk.QuietLogger{}))
+	t.srv = mcp.NewSSEServer(ServerName, ServerVersion, append([]mcp.SSEOption{mcp.WithSSEServerLogger(hk.QuietLogger{})}, reg.SSEOptions()...)...)
 	reg.Install(t.srv)
 	t.ts = httptest.NewUnstartedServer(t.srv)
 	t.ts.Config.ErrorLog = log.New(t.plog, "", 0)
@@ -797,7 +807,7 @@ func (t *sseTarget) ModelOp(in Input) map[string]any {
 	if ref != "live" && ref != "unknown" {
 		ref = "missing"
 	}
-	return map[string]any{"k": "sse", "in": map[string]any{"verb": verb, "path": path, "ref": ref, "body": bodyEnc(in.Body, false)}, "reg": t.reg.Spec()}
+	return map[string]any{"k": "sse", "in": map[string]any{"verb": verb, "path": path, "ref": ref, "body": bodyEnc(in.Body, false)}, "reg": t.reg.SpecFor(in.Hdr[RoleHeader])}
 }
 
 func (t *sseTarget) Alive() string {
